@@ -72,6 +72,11 @@ CHECKS = {
          "All 38 entry points that take an id, label or name x 42 hostile strings are run completely. 24 call sites build SQL by string formatting and are listed as known findings (one per call site, keyed driver:function:argument); the parameterised sites (AddVertex/AddEdge) hold, and any site not listed that changes token structure is reported.",
          "Trusted: the 180-line PostgreSQL tokenizer harness/model/sqltok.go (standard_conforming_strings on). No SQL server exists in the sandbox; canned empty result sets stand in for query answers.",
          "5/C20"),
+ "C12": ("exploration",
+         "runtime trace monitor + race detector under schedule perturbation: loop programs run in a -race build with verif-tagged event taps and delay points in the mark/jump/queue protocol; GOMAXPROCS and delay profiles are varied per run; result multiset compared with a worklist interpreter of the iterative definition, traveler conservation checked on the recorded event trace, non-closure diagnosed by livelock/deadlock certificates, race reports parsed and keyed",
+         "Held on every observed execution: ~130 loop programs x 6 graphs x GOMAXPROCS in {1,2,4,16} x 15 delay profiles (quick: a rotating third, about 1500 runs; thorough: all, with repetitions), including runs with thousands of travelers in flight. The evidence reports the number of distinct interleaving signatures actually observed (about 700 in a quick run); 'all interleavings' is sampled, not enumerated.",
+         "Trusted: the worklist interpreter (harness/model/loop.go), the recorder (harness/mon). Hooks H1/H2 (verifhook taps) are add-only no-ops without the tag. Bodies are restricted to order-preserving steps as the property states.",
+         "5/C12"),
 }
 
 NOT_YET = "check not built yet in this session (design in DESIGN.md section 5); claimed once the monitor exists and is silent on the unchanged tree"
